@@ -28,6 +28,11 @@ type opT struct {
 	Res   int    `json:"res,omitempty"`
 	Batch uint32 `json:"batch,omitempty"`
 	K     int    `json:"k,omitempty"`
+	// how the caller classifies the request; the isolation gauge is per resource NAME, so none of
+	// these may matter (the model ignores them)
+	RT   int  `json:"res_type,omitempty"` // base.ResourceType passed with WithResourceType (0 = common ... 4)
+	In   bool `json:"inbound,omitempty"`  // WithTrafficType(base.Inbound) instead of the default outbound
+	Args bool `json:"args,omitempty"`     // WithArgs(...) given
 }
 
 type seqCase struct {
@@ -87,7 +92,15 @@ func genSeq(r *rng.R, id int) seqCase {
 		default:
 			b = uint32(r.Range(0, 6))
 		}
-		c.Ops = append(c.Ops, opT{Kind: "enter", Res: res, Batch: b})
+		o := opT{Kind: "enter", Res: res, Batch: b}
+		// one resource name entered under different classifications / traffic types / option sets
+		// while entries are in flight (3 of 10 requests deviate from the defaults)
+		if r.Chance(3, 10) {
+			o.RT = r.Intn(5)
+			o.In = r.Chance(1, 3)
+			o.Args = r.Chance(1, 4)
+		}
+		c.Ops = append(c.Ops, o)
 		enters = append(enters, i)
 	}
 	return c
@@ -138,7 +151,17 @@ func runSeq(c seqCase) (obs []obsT, gauges []int64) {
 		stepClock(c.ID, i)
 		switch o.Kind {
 		case "enter":
-			e, b := sentinel.Entry(resName(c.ID, o.Res), sentinel.WithBatchCount(o.Batch))
+			opts := []sentinel.EntryOption{sentinel.WithBatchCount(o.Batch)}
+			if o.RT != 0 {
+				opts = append(opts, sentinel.WithResourceType(base.ResourceType(o.RT)))
+			}
+			if o.In {
+				opts = append(opts, sentinel.WithTrafficType(base.Inbound))
+			}
+			if o.Args {
+				opts = append(opts, sentinel.WithArgs(i, "x"))
+			}
+			e, b := sentinel.Entry(resName(c.ID, o.Res), opts...)
 			if b != nil {
 				idx := -1
 				if tr := b.TriggeredRule(); tr != nil {
@@ -443,7 +466,7 @@ func main() {
 	gclk = clk
 	root := rng.New(a.Seed)
 	rep := emit.NewReport("C04", a.Seed, a.Tier)
-	rep.Rule = "sequential: 1-3 resources x 1-3 isolation rules, 8-47 Entry/Exit ops (batches 0,1,2,N,N+1,2^32-1,2^32-2; exits out of order, repeated, of blocked ops); concurrent: k=2-4 goroutines parked at the chain yield between rule check and statistics, random interleavings with releases. Non-trivial = the history contains at least one admission and one rejection (sequential) / at least two requests simultaneously inside the admission path (concurrent); distinct by full input. parallel (search only): 0-4 entries held open, 4-16 real goroutines entering/exiting the same resource in 10-30 bursts; at quiescence gauge = held entries, then sequential decisions with exactly that many in flight (batch N-held admitted, N-held single admissions, next rejected with snapshot N)."
+	rep.Rule = "sequential: 1-3 resources x 1-3 isolation rules, 8-47 Entry/Exit ops (batches 0,1,2,N,N+1,2^32-1,2^32-2; exits out of order, repeated, of blocked ops; 3 in 10 requests enter the same resource name under another ResourceType / as inbound traffic / with arguments); concurrent: k=2-4 goroutines parked at the chain yield between rule check and statistics, random interleavings with releases. Non-trivial = the history contains at least one admission and one rejection (sequential) / at least two requests simultaneously inside the admission path (concurrent); distinct by full input. parallel (search only): 0-4 entries held open, 4-16 real goroutines entering/exiting the same resource in 10-30 bursts; at quiescence gauge = held entries, then sequential decisions with exactly that many in flight (batch N-held admitted, N-held single admissions, next rejected with snapshot N)."
 	nSeqCorr := a.Pick(a.N, 240, 4000)
 	nConcCorr := a.Pick(a.N, 80, 1500)
 	nSeqMon := a.Pick(a.Mon, 4000, 60000)
@@ -475,6 +498,9 @@ func main() {
 			rep.Count("op_"+o.Kind, 1)
 			if o.Kind == "enter" {
 				rep.Count("outcome_"+obs[i].Kind, 1)
+				if o.RT != 0 || o.In || o.Args {
+					rep.Count("enter_with_other_classification", 1)
+				}
 				if o.Batch == 0 {
 					rep.Count("batch_zero", 1)
 				} else if o.Batch > 1<<31 {
@@ -555,7 +581,7 @@ func main() {
 		runOneConc(concBase+j, j < nConcCorr)
 	}
 	// real-thread search leg (par.go): bounded by counts, at most 4 s (quick) / 60 s (thorough)
-	parLeg(root, rep, a.Pick(0, 8, 200), -1, time.Duration(a.Pick(0, 4, 60))*time.Second)
+	parLeg(root, rep, a.Pick(0, 12, 200), -1, time.Duration(a.Pick(0, 4, 60))*time.Second)
 	rep.DistinctNontrivial = dist.N()
 	rep.Consts["isolation.RuleCheckSlotOrder"] = isolation.RuleCheckSlotOrder
 	if sh != nil {
